@@ -99,28 +99,45 @@ func (s *Session) execCallWith(st *State, c *ssa.CallCommon, fnv Value, args []V
 		s.check(st, "safe.nil", s.obl("safe.nil", "funcvalue"), Ne(fv, TZero), pos)
 		fvName := c.Value.Name()
 		if u, ok := c.Value.(*ssa.UnOp); ok {
-			if a, ok := u.X.(*ssa.Alloc); ok {
-				fvName = a.Comment
-			}
-			if fv, ok := u.X.(*ssa.FreeVar); ok {
-				fvName = fv.Name()
+			switch x := u.X.(type) {
+			case *ssa.Alloc:
+				fvName = x.Comment
+			case *ssa.FreeVar:
+				fvName = x.Name()
+			case *ssa.FieldAddr:
+				if st, ok := x.X.Type().Underlying().(*types.Pointer).Elem().Underlying().(*types.Struct); ok {
+					fvName = st.Field(x.Field).Name()
+				}
 			}
 		}
-		if cs := s.callsiteSpec("funcvalue:" + fvName); cs != nil && len(cs.Assume) > 0 {
-			// an explicit, listed assumption about this dynamic call
-			s.note("assumed: dynamic call " + c.Value.Name() + " " + cs.Assume[0].Src)
-			k(st, s.freshResults(st, sig, "dyn"))
-			return
-		}
+		cs := s.callsiteSpec("funcvalue:" + fvName)
+		isCancel := false
 		if nt, ok := c.Value.Type().(*types.Named); ok && nt.Obj().Pkg() != nil && nt.Obj().Pkg().Path() == "context" && nt.Obj().Name() == "CancelFunc" {
 			// assumed contract of the standard library: a context.CancelFunc only cancels its context
 			s.trusted["context.CancelFunc"] = true
-			k(st, s.freshResults(st, sig, "dyn"))
-			return
+			isCancel = true
 		}
-		s.note(fmt.Sprintf("dynamic call of func value %s at %s: havoc all", c.Value.Name(), s.P.pos(pos)))
-		s.havocAll(st)
-		k(st, s.freshResults(st, sig, "dyn"))
+		switch {
+		case cs != nil && len(cs.Assume) > 0:
+			// an explicit, listed assumption about this dynamic call
+			s.note("assumed: dynamic call " + c.Value.Name() + " " + cs.Assume[0].Src)
+		case isCancel:
+		default:
+			s.note(fmt.Sprintf("dynamic call of func value %s at %s: havoc all", c.Value.Name(), s.P.pos(pos)))
+			s.havocAll(st)
+		}
+		s.bumpCalls(st, "funcvalue:"+fvName)
+		res := s.freshResults(st, sig, "dyn")
+		if cs != nil {
+			cenv := s.callerEnv(st)
+			for _, a := range cs.Assume {
+				st.assume(s.evalBool(st, cenv, a.E, a.Src))
+			}
+			for _, a := range cs.Ghost {
+				s.ghostAssign(st, cenv, a)
+			}
+		}
+		k(st, res)
 		return
 	}
 	if v, ok := s.atomicCall(st, callee, args, pos); ok {
@@ -535,6 +552,21 @@ func relSuffix(name string) string {
 		return name[i+1:]
 	}
 	return name
+}
+
+// bumpCalls counts a call that is not handled through a contract (a dynamic call of a function
+// value): calls(<field or variable name>) in specifications.
+func (s *Session) bumpCalls(st *State, name string) {
+	if i := strings.Index(name, ":"); i >= 0 {
+		name = name[i+1:]
+	}
+	for _, kind := range []string{"calls:", "returned:"} {
+		cur, ok := st.counts[kind+"funcvalue."+name]
+		if !ok {
+			cur = TZero
+		}
+		st.counts[kind+"funcvalue."+name] = Add(cur, IntLit(1))
+	}
 }
 
 func (s *Session) goCount(st *State, name string) {
